@@ -250,6 +250,19 @@ def dup_shape(full_name: str) -> List[bool]:
     return [c.endswith(" 0") or (len(c.split(" ")) == 2 and c.split(" ")[1].isdigit()) for c in full_name.split(".")]
 
 
+def ref_url(o: Any) -> str:
+    """Python twin of Inventory.tla!RefPage: the page (and anchor) that documents an object.  A package, module or class
+    has its own page named after its FULL name; the only root of a single-root project is index.html; anything else
+    is an anchor on the page of the nearest such ancestor.  Independent of Documentable.url."""
+    from urllib.parse import quote
+    from pydoctor import model
+    page = o
+    while not isinstance(page, (model.Module, model.Class)):
+        page = page.parent
+    page_url = "index.html" if (page.parent is None and len(o.system.rootobjects) == 1) else quote(page.fullName()) + ".html"
+    return page_url if page is o else f"{page_url}#{quote(o.name)}"
+
+
 def judge_project(ctx: Ctx, system: Any, origin: str, model_rt: Dict[Tuple[bool, ...], Dict[str, bool]],
                   stats: Dict[str, int], open_ids: List[str], data: Optional[bytes] = None) -> List[str]:
     """Write the inventory of a real System (unless its bytes are given), read it back with both readers, judge
@@ -282,6 +295,15 @@ def judge_project(ctx: Ctx, system: Any, origin: str, model_rt: Dict[Tuple[bool,
     visible = [o for o in reach if o.isVisible]
     hidden = [o for o in reach if not o.isVisible]
     stats["superseded_not_listed"] += sum(1 for o in system.allobjects.values() if o not in reach)
+    from pydoctor import model as _model
+    pages = [o for o in visible if isinstance(o, (_model.Module, _model.Class))]
+    targets: Dict[str, List[str]] = {}
+    for o in pages:
+        targets.setdefault(o.url, []).append(o.fullName())
+    for url, names in targets.items():
+        if len(names) > 1:
+            ctx.violation({"invariant": "PagesDistinct", "origin": origin, "input": names, "design_classes": [], "drift": True,
+                           "observed": {"documented_on_the_same_page": url}, "key": f"pages:{url}:{len(names)}"})
     if rexc:
         ctx.violation({"invariant": "NoCrash", "origin": origin, "observed": {"update_raised": rexc},
                        "input": "inventory written by SphinxInventoryWriter", "design_classes": [],
@@ -296,10 +318,10 @@ def judge_project(ctx: Ctx, system: Any, origin: str, model_rt: Dict[Tuple[bool,
     for o in visible:
         ctx.traces += 1
         stats["objects"] += 1
-        name, want = o.fullName(), f"{BASE}/{o.url}"
+        name, want = o.fullName(), f"{BASE}/{ref_url(o)}"
         shape = tuple(dup_shape(name))
         own_ok = reader.getLink(name) == want
-        sph_ok = name in sph and sph[name][1] == posixpath.join(BASE, o.url) and sph[name][0].startswith("py:")
+        sph_ok = name in sph and sph[name][1] == posixpath.join(BASE, ref_url(o)) and sph[name][0].startswith("py:")
         pred = model_rt.get(shape)
         if pred is not None and (pred["roundtrip"] != own_ok or pred["sphinx"] != sph_ok):
             stats["drift"] += 1
@@ -493,7 +515,7 @@ def run(ctx: Ctx) -> int:
     for fid in FINDINGS:
         ctx.register_matcher(fid, kf_matcher(fid, open_ids))
     stats = {k: 0 for k in ("rows", "usable_rows", "lenient_rows", "objects", "updates", "drift", "violations", "file_rows",
-                            "superseded_not_listed", "byte_strings", "multi", "histories", "write_histories")}
+                            "superseded_not_listed", "byte_strings", "multi", "histories", "write_histories", "url_cases")}
     design: List[str] = []
 
     def tlc(mode: str, classes: List[str], maxcols: int = 0, maxdepth: int = 0, env: Optional[Dict[str, str]] = None,
@@ -661,6 +683,42 @@ def run(ctx: Ctx) -> int:
         if stats["multi"] % 100 == 1:
             ctx.sample({"urls": cfgm, "observed": obs})
 
+    # ---- where an object is documented: names deeper in the tree that repeat the root's own name, one / two roots
+    r = tlc("urls", classes)
+    from urllib.parse import quote as _quote
+    FOO = ("'doc'\nclass foo:\n    'doc'\n    def f(self): 'd'\nclass K:\n    'doc'\n    def f(self): 'd'\n")
+    url_systems: Dict[int, Any] = {}
+    for nroots in (1, 2):
+        from pydoctor import model
+        system = model.System()
+        system.options.verbosity = -3
+        builder = system.systemBuilder(system)
+        builder.addModuleString("'package'", "foo", is_package=True)
+        builder.addModuleString(FOO, "foo", parent_name="foo")
+        builder.addModuleString(FOO, "K", parent_name="foo")
+        if nroots == 2:
+            builder.addModuleString("'another root'\ndef g(): 'd'\n", "other")
+        builder.buildModules()
+        url_systems[nroots] = system
+        all_lines += judge_project(ctx, system, f"urls:{nroots}roots", model_rt, stats, open_ids)
+    for rec in r.printed:
+        names = ["foo" if c == "r" else "K" for c in seq(rec["names"])]
+        full = ".".join(names)
+        o = url_systems[rec["roots"]].allobjects.get(full)
+        if o is None:
+            raise MachineryError(f"the project for Inventory.tla Mode urls has no object {full}")
+        page = seq(rec["page"])
+        want = "index.html" if page == ["index"] else _quote(full) + ".html"
+        ctx.traces += 1
+        stats["url_cases"] += 1
+        if o.url != want:
+            stats["drift"] += 1
+            stats["violations"] += 1
+            ctx.drift_note({"object": full, "roots": rec["roots"], "model": want, "real": o.url})
+            ctx.violation({"invariant": "DocumentedOnItsOwnPage", "origin": "urls", "input": full, "roots": rec["roots"],
+                           "observed": {"url": o.url}, "expected": want, "design_classes": [], "drift": True,
+                           "key": f"url:{full}:{rec['roots']}"})
+
     # ---- several generate() calls in one process, through the same / different writer objects
     from pydoctor import sphinx as _sphinx
     projects = {"p1": build_system({"solo": "'doc'\nclass K:\n    'doc'\n    def f(self): 'd'\n"}),
@@ -809,6 +867,21 @@ def replay(ctx: Ctx, path: str) -> int:
             nm = " ".join(toks[p - 1] for p in seq(ref["name"]))
             bad = reader.getLink(nm) != expected_url(nm, toks[ref["loc"] - 1])
         print(f"replay: line {line!r} -> {real} / {effect}:", "still violated" if bad else "holds now")
+    elif w.get("origin") == "urls":
+        from pydoctor import model
+        system = model.System()
+        system.options.verbosity = -3
+        builder = system.systemBuilder(system)
+        FOO = ("'doc'\nclass foo:\n    'doc'\n    def f(self): 'd'\nclass K:\n    'doc'\n    def f(self): 'd'\n")
+        builder.addModuleString("'package'", "foo", is_package=True)
+        builder.addModuleString(FOO, "foo", parent_name="foo")
+        builder.addModuleString(FOO, "K", parent_name="foo")
+        if w.get("roots") == 2:
+            builder.addModuleString("'another root'\n", "other")
+        builder.buildModules()
+        got = system.allobjects[w["input"]].url
+        bad = got != w["expected"]
+        print(f"replay: {w['input']} ({w.get('roots')} root(s)) is documented at {got}:", "still violated" if bad else "holds now")
     elif str(w.get("origin", "")).startswith("writes") and w.get("events"):
         from pydoctor import sphinx as _sphinx
         projects = {"p1": build_system({"solo": "'doc'\nclass K:\n    'doc'\n    def f(self): 'd'\n"}),
